@@ -43,6 +43,9 @@ Section Roundtrip.
 Variable lower : N -> N.
 Variable printable : N -> bool.
 Hypothesis printable_nl : printable 10 = false.
+(* how the name map changes under the parameter list of an anonymous function (identity for plain printing;
+   "stop renaming" under a parameter named like the renamed reference) *)
+Variable push : list text -> (text -> text) -> (text -> text).
 
 (* the tokens Expression.String() writes (spaces are added in proofs/ExRender) *)
 Fixpoint ptoks (e : expr) : list token :=
@@ -80,6 +83,59 @@ Lemma ptoks_list_cons e es : es <> [] -> ptoks_list (e :: es) = ptoks e ++ COMMA
 Proof. destruct es; [congruence|reflexivity]. Qed.
 
 Notation norm := (norm lower).
+
+(* the same with an arbitrary map on the names of context references, which may change under parameter lists:
+   [nm] = map lower gives ptoks / norm; [nm] = rename-then-lower gives the printed tokens of a renamed tree *)
+Fixpoint gtoks (nm : text -> text) (e : expr) : list token :=
+  match e with
+  | ECtxRef n => [tokc NAME (nm n)]
+  | EDot c l => gtoks nm c ++ [DOTt; lookup_tok l]
+  | EIndex c l => gtoks nm c ++ [LB] ++ gtoks nm l ++ [RB]
+  | ECall f ps =>
+      gtoks nm f ++ [LP] ++
+      (fix go (l : list expr) : list token :=
+         match l with
+         | [] => []
+         | x :: r => match r with [] => gtoks nm x | _ => gtoks nm x ++ COMMAt :: go r end
+         end) ps ++ [RP]
+  | EAnon a b => [LP] ++ names_toks a ++ [RP; ARROWt] ++ gtoks (push a nm) b
+  | EBin o a b => gtoks nm a ++ [op_tok o] ++ gtoks nm b
+  | ENeg a => MINUSt :: gtoks nm a
+  | EParen a => LP :: gtoks nm a ++ [RP]
+  | EText v => [tokc TEXT (quote printable v)]
+  | ENum l => [num_tok (num_render l)]
+  | EBool b => [if b then tokc TRUE [116; 114; 117; 101] else tokc FALSE [102; 97; 108; 115; 101]]
+  | ENull => [tokc NULL [110; 117; 108; 108]]
+  end.
+
+Definition gtoks_list (nm : text -> text) : list expr -> list token :=
+  fix go (l : list expr) : list token :=
+    match l with
+    | [] => []
+    | x :: r => match r with [] => gtoks nm x | _ => gtoks nm x ++ COMMAt :: go r end
+    end.
+
+Lemma gtoks_call nm f ps : gtoks nm (ECall f ps) = gtoks nm f ++ [LP] ++ gtoks_list nm ps ++ [RP].
+Proof. reflexivity. Qed.
+
+Lemma gtoks_list_cons nm e es : es <> [] -> gtoks_list nm (e :: es) = gtoks nm e ++ COMMAt :: gtoks_list nm es.
+Proof. destruct es; [congruence|reflexivity]. Qed.
+
+Fixpoint gnorm (nm : text -> text) (e : expr) : expr :=
+  match e with
+  | ECtxRef n => ECtxRef (nm n)
+  | EDot c l => EDot (gnorm nm c) l
+  | EIndex c l => EIndex (gnorm nm c) (gnorm nm l)
+  | ECall f ps => ECall (gnorm nm f) (map (gnorm nm) ps)
+  | EAnon a b => EAnon a (gnorm (push a nm) b)
+  | EBin o a b => EBin o (gnorm nm a) (gnorm nm b)
+  | ENeg a => ENeg (gnorm nm a)
+  | EParen a => EParen (gnorm nm a)
+  | EText v => EText v
+  | ENum l => ENum (num_render l)
+  | EBool b => EBool b
+  | ENull => ENull
+  end.
 
 (* ---------------------------------------------------------------------------------------------- *)
 (* tokens *)
@@ -334,7 +390,7 @@ Qed.
 
 
 (* ---------------------------------------------------------------------------------------------- *)
-(* small facts about ptoks *)
+(* small facts about gtoks nm *)
 
 Definition alike (r1 r2 : list token) : Prop := Forall2 krel r1 r2.
 
@@ -344,17 +400,17 @@ Proof. apply Forall2_app. Qed.
 Lemma alike_length a b : alike a b -> length a = length b.
 Proof. induction 1; cbn [length]; congruence. Qed.
 
-Lemma ptoks_nonempty e : ptoks e <> [].
+Lemma gtoks_nonempty nm e : gtoks nm e <> [].
 Proof.
-  destruct e; cbn [ptoks]; try discriminate;
+  destruct e; cbn [gtoks]; try discriminate;
     try (intros H; apply app_eq_nil in H; destruct H as [_ H]; discriminate).
 Qed.
 
-Lemma ptoks_list_nonempty es : es <> [] -> ptoks_list es <> [].
+Lemma gtoks_list_nonempty nm es : es <> [] -> gtoks_list nm es <> [].
 Proof.
   destruct es as [|e es]; [congruence|]. intros _. destruct es.
-  - apply ptoks_nonempty.
-  - cbn [ptoks_list]. intros H. apply app_eq_nil in H. destruct H as [H _]. exact (ptoks_nonempty e H).
+  - apply gtoks_nonempty.
+  - cbn [gtoks_list]. intros H. apply app_eq_nil in H. destruct H as [H _]. exact (gtoks_nonempty nm e H).
 Qed.
 
 Lemma text_value_quote v : valid_codepoints v -> text_value (quote printable v) = Some v.
@@ -368,9 +424,9 @@ Proof.
 Qed.
 
 (* a literal token and the token the printer writes for the literal it denotes *)
-Lemma lit_case t l : lit_of (tk t) = Some l -> tokok t ->
-  exists tl, ptoks (mk_lit l t) = [tl] /\ krel t tl /\ tokgood tl /\ prefix_of (tk tl) = None /\ lit_of (tk tl) = Some l
-             /\ mk_lit l tl = norm (mk_lit l t).
+Lemma lit_case nm t l : lit_of (tk t) = Some l -> tokok t ->
+  exists tl, gtoks nm (mk_lit l t) = [tl] /\ krel t tl /\ tokgood tl /\ prefix_of (tk tl) = None /\ lit_of (tk tl) = Some l
+             /\ mk_lit l tl = gnorm nm (mk_lit l t).
 Proof.
   intros Hl (Hi & Hn & Hv). pose proof (lit_kinds _ _ Hl) as Hk. destruct l.
   - (* text *)
@@ -396,39 +452,39 @@ Qed.
 (* ---------------------------------------------------------------------------------------------- *)
 (* the statements, by fuel *)
 
-Definition S_expr (fuel : nat) : Prop := forall p ts t1 r1,
+Definition S_expr (fuel : nat) : Prop := forall nm p ts t1 r1,
   Forall tokok ts -> p_expr fuel p ts = PR (t1, r1) ->
-  exists consumed, ts = consumed ++ r1 /\ alike consumed (ptoks t1) /\ Forall tokgood (ptoks t1) /\
-    forall r2, alike r1 r2 -> p_expr fuel p (ptoks t1 ++ r2) = PR (norm t1, r2).
+  exists consumed, ts = consumed ++ r1 /\ alike consumed (gtoks nm t1) /\ Forall tokgood (gtoks nm t1) /\
+    forall r2, alike r1 r2 -> p_expr fuel p (gtoks nm t1 ++ r2) = PR (gnorm nm t1, r2).
 
-Definition S_primary (fuel : nat) : Prop := forall ts t1 r1,
+Definition S_primary (fuel : nat) : Prop := forall nm ts t1 r1,
   Forall tokok ts -> p_primary fuel ts = PR (t1, r1) ->
-  exists consumed, ts = consumed ++ r1 /\ alike consumed (ptoks t1) /\ Forall tokgood (ptoks t1) /\
-    forall r2, alike r1 r2 -> p_primary fuel (ptoks t1 ++ r2) = PR (norm t1, r2).
+  exists consumed, ts = consumed ++ r1 /\ alike consumed (gtoks nm t1) /\ Forall tokgood (gtoks nm t1) /\
+    forall r2, alike r1 r2 -> p_primary fuel (gtoks nm t1 ++ r2) = PR (gnorm nm t1, r2).
 
-Definition S_atom (fuel : nat) : Prop := forall ts t1 r1,
+Definition S_atom (fuel : nat) : Prop := forall nm ts t1 r1,
   Forall tokok ts -> p_atom fuel ts = PR (t1, r1) ->
-  (exists t r h tl, ts = t :: r /\ ptoks t1 = h :: tl /\ tk h = tk t) /\
-  exists consumed, ts = consumed ++ r1 /\ alike consumed (ptoks t1) /\ Forall tokgood (ptoks t1) /\
-    forall r2, alike r1 r2 -> p_atom fuel (ptoks t1 ++ r2) = PR (norm t1, r2).
+  (exists t r h tl, ts = t :: r /\ gtoks nm t1 = h :: tl /\ tk h = tk t) /\
+  exists consumed, ts = consumed ++ r1 /\ alike consumed (gtoks nm t1) /\ Forall tokgood (gtoks nm t1) /\
+    forall r2, alike r1 r2 -> p_atom fuel (gtoks nm t1 ++ r2) = PR (gnorm nm t1, r2).
 
-Definition S_binloop (fuel : nat) : Prop := forall p lhs ts t1 r1,
+Definition S_binloop (fuel : nat) : Prop := forall nm p lhs ts t1 r1,
   Forall tokok ts -> p_binloop fuel p lhs ts = PR (t1, r1) ->
-  exists consumed suffix, ts = consumed ++ r1 /\ ptoks t1 = ptoks lhs ++ suffix /\ alike consumed suffix
+  exists consumed suffix, ts = consumed ++ r1 /\ gtoks nm t1 = gtoks nm lhs ++ suffix /\ alike consumed suffix
     /\ Forall tokgood suffix /\
-    forall r2, alike r1 r2 -> p_binloop fuel p (norm lhs) (suffix ++ r2) = PR (norm t1, r2).
+    forall r2, alike r1 r2 -> p_binloop fuel p (gnorm nm lhs) (suffix ++ r2) = PR (gnorm nm t1, r2).
 
-Definition S_postfix (fuel : nat) : Prop := forall a ts t1 r1,
+Definition S_postfix (fuel : nat) : Prop := forall nm a ts t1 r1,
   Forall tokok ts -> p_postfix fuel a ts = PR (t1, r1) ->
-  exists consumed suffix, ts = consumed ++ r1 /\ ptoks t1 = ptoks a ++ suffix /\ alike consumed suffix
+  exists consumed suffix, ts = consumed ++ r1 /\ gtoks nm t1 = gtoks nm a ++ suffix /\ alike consumed suffix
     /\ Forall tokgood suffix /\
-    forall r2, alike r1 r2 -> p_postfix fuel (norm a) (suffix ++ r2) = PR (norm t1, r2).
+    forall r2, alike r1 r2 -> p_postfix fuel (gnorm nm a) (suffix ++ r2) = PR (gnorm nm t1, r2).
 
-Definition S_params (fuel : nat) : Prop := forall ts es r1,
+Definition S_params (fuel : nat) : Prop := forall nm ts es r1,
   Forall tokok ts -> p_params fuel ts = PR (es, r1) ->
   es <> [] /\
-  exists consumed, ts = consumed ++ r1 /\ alike consumed (ptoks_list es) /\ Forall tokgood (ptoks_list es) /\
-    forall r2, alike r1 r2 -> p_params fuel (ptoks_list es ++ r2) = PR (map norm es, r2).
+  exists consumed, ts = consumed ++ r1 /\ alike consumed (gtoks_list nm es) /\ Forall tokgood (gtoks_list nm es) /\
+    forall r2, alike r1 r2 -> p_params fuel (gtoks_list nm es ++ r2) = PR (map (gnorm nm) es, r2).
 
 Lemma tokok_tail a b : Forall tokok (a ++ b) -> Forall tokok b.
 Proof. intros H. apply Forall_app in H. tauto. Qed.
@@ -436,10 +492,10 @@ Proof. intros H. apply Forall_app in H. tauto. Qed.
 (* p_expr *)
 Lemma step_expr f : S_primary f -> S_binloop f -> S_expr (S f).
 Proof.
-  intros HP HB p ts t1 r1 Hok H. rewrite p_expr_eq in H.
+  intros HP HB nm p ts t1 r1 Hok H. rewrite p_expr_eq in H.
   destruct (p_primary f ts) as [[e r]| |] eqn:E1; try discriminate.
-  destruct (HP _ _ _ Hok E1) as (c1 & -> & A1 & G1 & K1).
-  destruct (HB _ _ _ _ _ (tokok_tail _ _ Hok) H) as (c2 & suf & -> & Ep & A2 & G2 & K2).
+  destruct (HP nm _ _ _ Hok E1) as (c1 & -> & A1 & G1 & K1).
+  destruct (HB nm _ _ _ _ _ (tokok_tail _ _ Hok) H) as (c2 & suf & -> & Ep & A2 & G2 & K2).
   exists (c1 ++ c2). split; [rewrite app_assoc; reflexivity|]. rewrite Ep.
   split; [apply alike_app; assumption|]. split; [apply Forall_app; split; assumption|].
   intros r2 A. rewrite p_expr_eq, <- app_assoc.
@@ -449,12 +505,12 @@ Qed.
 (* p_binloop *)
 Lemma step_binloop f : S_expr f -> S_binloop f -> S_binloop (S f).
 Proof.
-  intros HE HB p lhs ts t1 r1 Hok H. rewrite p_binloop_eq in H.
+  intros HE HB nm p lhs ts t1 r1 Hok H. rewrite p_binloop_eq in H.
   assert (Hexit : PR (lhs, ts) = PR (t1, r1) ->
             (forall t r, ts = t :: r -> match binop_of (tk t) with Some (prec, _) => Nat.leb p prec = false | None => True end) ->
-            exists consumed suffix, ts = consumed ++ r1 /\ ptoks t1 = ptoks lhs ++ suffix /\ alike consumed suffix
+            exists consumed suffix, ts = consumed ++ r1 /\ gtoks nm t1 = gtoks nm lhs ++ suffix /\ alike consumed suffix
               /\ Forall tokgood suffix /\
-              forall r2, alike r1 r2 -> p_binloop (S f) p (norm lhs) (suffix ++ r2) = PR (norm t1, r2)).
+              forall r2, alike r1 r2 -> p_binloop (S f) p (gnorm nm lhs) (suffix ++ r2) = PR (gnorm nm t1, r2)).
   { intros E Hx. inversion E; subst. exists [], []. rewrite app_nil_r.
     split; [reflexivity|]. split; [reflexivity|]. split; [constructor|]. split; [constructor|].
     intros r2 A. cbn [app]. rewrite p_binloop_eq. destruct A as [|t t2 r r2' Ht A]; [reflexivity|].
@@ -467,13 +523,13 @@ Proof.
   2:{ apply Hexit; [exact H|]. intros t' r' E; inversion E; subst. rewrite EB. exact EL. }
   destruct (p_expr f (S prec) r) as [[rhs r']| |] eqn:E1; try discriminate.
   assert (Hokr : Forall tokok r) by (inversion Hok; assumption).
-  destruct (HE _ _ _ _ Hokr E1) as (c1 & -> & A1 & G1 & K1).
-  destruct (HB _ _ _ _ _ (tokok_tail _ _ Hokr) H) as (c2 & suf & -> & Ep & A2 & G2 & K2).
+  destruct (HE nm _ _ _ _ Hokr E1) as (c1 & -> & A1 & G1 & K1).
+  destruct (HB nm _ _ _ _ _ (tokok_tail _ _ Hokr) H) as (c2 & suf & -> & Ep & A2 & G2 & K2).
   destruct (binop_rt _ _ _ EB) as (B1 & B2 & B3).
   set (o := mk_bin l (tk t)) in *.
-  exists (t :: c1 ++ c2), (op_tok o :: ptoks rhs ++ suf).
+  exists (t :: c1 ++ c2), (op_tok o :: gtoks nm rhs ++ suf).
   split; [cbn [app]; rewrite app_assoc; reflexivity|].
-  split; [rewrite Ep; cbn [ptoks]; rewrite <- !app_assoc; reflexivity|].
+  split; [rewrite Ep; cbn [gtoks]; rewrite <- !app_assoc; reflexivity|].
   split.
   { constructor; [left; symmetry; exact B3|]. apply alike_app; assumption. }
   split.
@@ -489,32 +545,32 @@ Qed.
 (* p_primary *)
 Lemma step_primary f : S_expr f -> S_atom f -> S_primary (S f).
 Proof.
-  intros HE HA ts t1 r1 Hok H. rewrite p_primary_eq in H.
+  intros HE HA nm ts t1 r1 Hok H. rewrite p_primary_eq in H.
   destruct ts as [|t r]; [discriminate|].
   assert (Hokr : Forall tokok r) by (inversion Hok; assumption).
   assert (Hokt : tokok t) by (inversion Hok; assumption).
   destruct (prefix_of (tk t)) as [prec|] eqn:EP.
   { (* negation *)
     destruct (p_expr f prec r) as [[e r']| |] eqn:E1; try discriminate. inversion H; subst.
-    destruct (HE _ _ _ _ Hokr E1) as (c1 & -> & A1 & G1 & K1).
+    destruct (HE nm _ _ _ _ Hokr E1) as (c1 & -> & A1 & G1 & K1).
     pose proof (kinds_prefix _ _ EP) as Hk.
-    exists (t :: c1). split; [reflexivity|]. cbn [ptoks].
+    exists (t :: c1). split; [reflexivity|]. cbn [gtoks].
     split; [constructor; [left; exact Hk|exact A1]|].
     split; [constructor; [intros Ht; discriminate|exact G1]|].
     intros r2 A. cbn [app]. rewrite p_primary_eq. change (tk MINUSt) with MINUS. rewrite <- Hk, EP.
     rewrite (K1 r2 A). reflexivity. }
   destruct (lit_of (tk t)) as [l|] eqn:EL.
   { (* literal *)
-    inversion H; subst. destruct (lit_case t l EL Hokt) as (tl & E1 & A1 & G1 & P1 & L1 & M1).
+    inversion H; subst. destruct (lit_case nm t l EL Hokt) as (tl & E1 & A1 & G1 & P1 & L1 & M1).
     exists [t]. split; [reflexivity|]. rewrite E1.
     split; [constructor; [exact A1|constructor]|]. split; [constructor; [exact G1|constructor]|].
     intros r2 A. cbn [app]. rewrite p_primary_eq, P1, L1, M1. reflexivity. }
   (* anonymous function or atom *)
   assert (Hatom : p_atom f (t :: r) = PR (t1, r1) ->
             (is_k LPAREN t = true -> anon_head r = None \/ anon_prec = None) ->
-            exists consumed, t :: r = consumed ++ r1 /\ alike consumed (ptoks t1) /\ Forall tokgood (ptoks t1) /\
-              forall r2, alike r1 r2 -> p_primary (S f) (ptoks t1 ++ r2) = PR (norm t1, r2)).
-  { intros E1 Hno. destruct (HA _ _ _ Hok E1) as ((t' & r' & h & tl & Ets & Eh & Hh) & c1 & Ec & A1 & G1 & K1).
+            exists consumed, t :: r = consumed ++ r1 /\ alike consumed (gtoks nm t1) /\ Forall tokgood (gtoks nm t1) /\
+              forall r2, alike r1 r2 -> p_primary (S f) (gtoks nm t1 ++ r2) = PR (gnorm nm t1, r2)).
+  { intros E1 Hno. destruct (HA nm _ _ _ Hok E1) as ((t' & r' & h & tl & Ets & Eh & Hh) & c1 & Ec & A1 & G1 & K1).
     inversion Ets; subst t' r'.
     exists c1. split; [exact Ec|]. split; [exact A1|]. split; [exact G1|].
     intros r2 A. rewrite p_primary_eq. rewrite Eh. cbn [app]. rewrite Hh, EP, EL.
@@ -548,12 +604,13 @@ Proof.
   (* anonymous function *)
   destruct (p_expr f prec r') as [[body r'']| |] eqn:E1; try discriminate. inversion H; subst.
   destruct (anon_head_some _ _ _ EA) as (Hne & hd & -> & AH).
-  destruct (HE _ _ _ _ (tokok_tail _ _ Hokr) E1) as (c1 & -> & A1 & G1 & K1).
+  destruct (HE (push names nm) _ _ _ _ (tokok_tail _ _ Hokr) E1) as (c1 & -> & A1 & G1 & K1).
   apply is_k_eq in ELP.
-  exists (t :: hd ++ c1). split; [cbn [app]; rewrite <- app_assoc; reflexivity|]. cbn [ptoks].
+  exists (t :: hd ++ c1). split; [cbn [app]; rewrite <- app_assoc; reflexivity|]. cbn [gtoks].
   split.
   { cbn [app]. constructor; [left; exact ELP|].
-    replace (names_toks names ++ RP :: ARROWt :: ptoks body) with ((names_toks names ++ [RP; ARROWt]) ++ ptoks body)
+    replace (names_toks names ++ RP :: ARROWt :: gtoks (push names nm) body)
+      with ((names_toks names ++ [RP; ARROWt]) ++ gtoks (push names nm) body)
       by (rewrite <- app_assoc; reflexivity).
     apply alike_app; assumption. }
   split.
@@ -573,19 +630,19 @@ Qed.
 (* p_atom *)
 Lemma step_atom f : S_expr f -> S_postfix f -> S_atom (S f).
 Proof.
-  intros HE HPo ts t1 r1 Hok H. rewrite p_atom_eq in H.
+  intros HE HPo nm ts t1 r1 Hok H. rewrite p_atom_eq in H.
   destruct ts as [|t r]; [discriminate|].
   assert (Hokr : Forall tokok r) by (inversion Hok; assumption).
   destruct (is_k LPAREN t) eqn:ELP.
   { apply is_k_eq in ELP.
     destruct (p_expr f 0 r) as [[e [|c r']]| |] eqn:E1; try discriminate.
     destruct (is_k RPAREN c) eqn:ERP; [|discriminate]. apply is_k_eq in ERP.
-    destruct (HE _ _ _ _ Hokr E1) as (c1 & -> & A1 & G1 & K1).
+    destruct (HE nm _ _ _ _ Hokr E1) as (c1 & -> & A1 & G1 & K1).
     assert (Hok' : Forall tokok r').
     { apply tokok_tail in Hokr. inversion Hokr; assumption. }
-    destruct (HPo _ _ _ _ Hok' H) as (c2 & suf & -> & Ep & A2 & G2 & K2).
-    cbn [ptoks] in Ep. split.
-    { exists t, (c1 ++ c :: c2 ++ r1), LP, (ptoks e ++ [RP] ++ suf). split; [reflexivity|]. split; [|symmetry; exact ELP].
+    destruct (HPo nm _ _ _ _ Hok' H) as (c2 & suf & -> & Ep & A2 & G2 & K2).
+    cbn [gtoks] in Ep. split.
+    { exists t, (c1 ++ c :: c2 ++ r1), LP, (gtoks nm e ++ [RP] ++ suf). split; [reflexivity|]. split; [|symmetry; exact ELP].
       rewrite Ep. cbn [app]. rewrite <- app_assoc. reflexivity. }
     exists (t :: c1 ++ c :: c2). split; [cbn [app]; rewrite <- app_assoc; reflexivity|].
     rewrite Ep.
@@ -601,43 +658,43 @@ Proof.
     2:{ constructor; [left; exact ERP|]. apply alike_app; assumption. }
     change (is_k RPAREN RP) with true. cbv iota. apply (K2 r2 A). }
   destruct (is_k NAME t) eqn:EN; [|discriminate]. apply is_k_eq in EN.
-  destruct (HPo _ _ _ _ Hokr H) as (c2 & suf & -> & Ep & A2 & G2 & K2).
-  cbn [ptoks] in Ep. split.
-  { exists t, (c2 ++ r1), (tokc NAME (map lower (tx t))), suf. split; [reflexivity|]. split; [exact Ep|symmetry; exact EN]. }
+  destruct (HPo nm _ _ _ _ Hokr H) as (c2 & suf & -> & Ep & A2 & G2 & K2).
+  cbn [gtoks] in Ep. split.
+  { exists t, (c2 ++ r1), (tokc NAME (nm (tx t))), suf. split; [reflexivity|]. split; [exact Ep|symmetry; exact EN]. }
   exists (t :: c2). split; [reflexivity|]. rewrite Ep.
   split; [cbn [app]; constructor; [left; exact EN|exact A2]|].
   split; [cbn [app]; constructor; [intros Ht; discriminate|exact G2]|].
   intros r2 A. cbn [app]. rewrite p_atom_eq.
-  change (is_k LPAREN (tokc NAME (map lower (tx t)))) with false.
-  change (is_k NAME (tokc NAME (map lower (tx t)))) with true. cbv iota.
+  change (is_k LPAREN (tokc NAME (nm (tx t)))) with false.
+  change (is_k NAME (tokc NAME (nm (tx t)))) with true. cbv iota.
   apply (K2 r2 A).
 Qed.
 
 (* p_params *)
 Lemma step_params f : S_expr f -> S_params f -> S_params (S f).
 Proof.
-  intros HE HPa ts es r1 Hok H. rewrite p_params_eq in H.
+  intros HE HPa nm ts es r1 Hok H. rewrite p_params_eq in H.
   destruct (p_expr f 0 ts) as [[e [|c r]]| |] eqn:E1; try discriminate.
   - (* last parameter, end of input *)
-    inversion H; subst. destruct (HE _ _ _ _ Hok E1) as (c1 & -> & A1 & G1 & K1).
-    split; [discriminate|]. exists c1. cbn [ptoks_list]. split; [reflexivity|]. split; [exact A1|]. split; [exact G1|].
+    inversion H; subst. destruct (HE nm _ _ _ _ Hok E1) as (c1 & -> & A1 & G1 & K1).
+    split; [discriminate|]. exists c1. cbn [gtoks_list]. split; [reflexivity|]. split; [exact A1|]. split; [exact G1|].
     intros r2 A. rewrite p_params_eq, (K1 r2 A). inversion A; subst. reflexivity.
-  - destruct (HE _ _ _ _ Hok E1) as (c1 & -> & A1 & G1 & K1).
+  - destruct (HE nm _ _ _ _ Hok E1) as (c1 & -> & A1 & G1 & K1).
     destruct (is_k COMMA c) eqn:EC.
     + apply is_k_eq in EC.
       destruct (p_params f r) as [[es' r']| |] eqn:E2; try discriminate. inversion H; subst.
       assert (Hokr : Forall tokok r).
       { apply tokok_tail in Hok. inversion Hok; assumption. }
-      destruct (HPa _ _ _ Hokr E2) as (Hne & c2 & -> & A2 & G2 & K2).
+      destruct (HPa nm _ _ _ Hokr E2) as (Hne & c2 & -> & A2 & G2 & K2).
       split; [discriminate|]. exists (c1 ++ c :: c2). split; [rewrite <- app_assoc; reflexivity|].
-      rewrite (ptoks_list_cons _ _ Hne).
+      rewrite (gtoks_list_cons nm _ _ Hne).
       split; [apply alike_app; [exact A1|constructor; [left; exact EC|exact A2]]|].
       split; [apply Forall_app; split; [exact G1|constructor; [intros Ht; discriminate|exact G2]]|].
       intros r2 A. rewrite p_params_eq, <- app_assoc. cbn [app].
-      rewrite (K1 (COMMAt :: ptoks_list es' ++ r2)).
+      rewrite (K1 (COMMAt :: gtoks_list nm es' ++ r2)).
       2:{ constructor; [left; exact EC|]. apply alike_app; assumption. }
       change (is_k COMMA COMMAt) with true. cbv iota. rewrite (K2 r2 A). reflexivity.
-    + inversion H; subst. split; [discriminate|]. exists c1. cbn [ptoks_list].
+    + inversion H; subst. split; [discriminate|]. exists c1. cbn [gtoks_list].
       split; [reflexivity|]. split; [exact A1|]. split; [exact G1|].
       intros r2 A. rewrite p_params_eq, (K1 r2 A). inversion A as [|? c2 ? r2' Hc A']; subst.
       rewrite <- (krel_is_k COMMA _ _ eq_refl Hc), EC. reflexivity.
@@ -647,12 +704,12 @@ Qed.
 (* p_postfix *)
 Lemma step_postfix f : S_expr f -> S_postfix f -> S_params f -> S_postfix (S f).
 Proof.
-  intros HE HPo HPa a ts t1 r1 Hok H. rewrite p_postfix_eq in H.
+  intros HE HPo HPa nm a ts t1 r1 Hok H. rewrite p_postfix_eq in H.
   assert (Hexit : PR (a, ts) = PR (t1, r1) ->
             (forall t r, ts = t :: r -> is_k LPAREN t = false /\ is_k DOT t = false /\ is_k LBRACK t = false) ->
-            exists consumed suffix, ts = consumed ++ r1 /\ ptoks t1 = ptoks a ++ suffix /\ alike consumed suffix
+            exists consumed suffix, ts = consumed ++ r1 /\ gtoks nm t1 = gtoks nm a ++ suffix /\ alike consumed suffix
               /\ Forall tokgood suffix /\
-              forall r2, alike r1 r2 -> p_postfix (S f) (norm a) (suffix ++ r2) = PR (norm t1, r2)).
+              forall r2, alike r1 r2 -> p_postfix (S f) (gnorm nm a) (suffix ++ r2) = PR (gnorm nm t1, r2)).
   { intros E Hx. inversion E; subst. exists [], []. rewrite app_nil_r.
     split; [reflexivity|]. split; [reflexivity|]. split; [constructor|]. split; [constructor|].
     intros r2 A. cbn [app]. rewrite p_postfix_eq. destruct A as [|t t2 r r2' Ht A]; [reflexivity|].
@@ -667,8 +724,8 @@ Proof.
     assert (Hok' : Forall tokok r') by (inversion Hokr; assumption).
     destruct (is_k RPAREN c) eqn:ERP.
     - apply is_k_eq in ERP.
-      destruct (HPo _ _ _ _ Hok' H) as (c2 & suf & -> & Ep & A2 & G2 & K2).
-      rewrite ptoks_call in Ep. cbn [ptoks_list app] in Ep.
+      destruct (HPo nm _ _ _ _ Hok' H) as (c2 & suf & -> & Ep & A2 & G2 & K2).
+      rewrite gtoks_call in Ep. cbn [gtoks_list app] in Ep.
       exists (t :: c :: c2), (LP :: RP :: suf). split; [reflexivity|].
       split; [rewrite Ep, <- app_assoc; reflexivity|].
       split; [constructor; [left; exact ELP|constructor; [left; exact ERP|exact A2]]|].
@@ -677,13 +734,13 @@ Proof.
       change (is_k RPAREN RP) with true. cbv iota. apply (K2 r2 A).
     - destruct (p_params f (c :: r')) as [[ps [|c' r'']]| |] eqn:E1; try discriminate.
       destruct (is_k RPAREN c') eqn:ERP'; [|discriminate]. apply is_k_eq in ERP'.
-      destruct (HPa _ _ _ Hokr E1) as (Hne & c1 & Ec & A1 & G1 & K1).
+      destruct (HPa nm _ _ _ Hokr E1) as (Hne & c1 & Ec & A1 & G1 & K1).
       assert (Hok'' : Forall tokok r'').
       { rewrite Ec in Hokr. apply tokok_tail in Hokr. inversion Hokr; assumption. }
-      destruct (HPo _ _ _ _ Hok'' H) as (c2 & suf & -> & Ep & A2 & G2 & K2).
-      rewrite ptoks_call in Ep.
+      destruct (HPo nm _ _ _ _ Hok'' H) as (c2 & suf & -> & Ep & A2 & G2 & K2).
+      rewrite gtoks_call in Ep.
       (* the first token of the printed parameters is not a closing parenthesis *)
-      destruct (ptoks_list ps) as [|h2 tl2] eqn:EPL; [exfalso; exact (ptoks_list_nonempty _ Hne EPL)|].
+      destruct (gtoks_list nm ps) as [|h2 tl2] eqn:EPL; [exfalso; exact (gtoks_list_nonempty nm _ Hne EPL)|].
       assert (Hh2 : is_k RPAREN h2 = false).
       { destruct c1 as [|x c1']; [inversion A1|]. inversion A1 as [|? ? ? ? Hx A1']; subst.
         cbn [app] in Ec. inversion Ec; subst x.
@@ -708,8 +765,8 @@ Proof.
     destruct (kind_in (tk n) dot_kinds) eqn:EK; [|discriminate].
     assert (Hok' : Forall tokok r') by (inversion Hokr; assumption).
     assert (Hokn : tokok n) by (inversion Hokr; assumption).
-    destruct (HPo _ _ _ _ Hok' H) as (c2 & suf & -> & Ep & A2 & G2 & K2).
-    cbn [ptoks] in Ep.
+    destruct (HPo nm _ _ _ _ Hok' H) as (c2 & suf & -> & Ep & A2 & G2 & K2).
+    cbn [gtoks] in Ep.
     assert (Hlk : tk (lookup_tok (tx n)) = tk n).
     { destruct Hokn as (Hi & Hn & _). unfold lookup_tok. cbn [tk tokc].
       destruct (dot_kinds_cases _ EK) as [E|E]; rewrite E.
@@ -728,12 +785,12 @@ Proof.
     apply is_k_eq in ELB.
     destruct (p_expr f 0 r) as [[e [|c r']]| |] eqn:E1; try discriminate.
     destruct (is_k RBRACK c) eqn:ERB; [|discriminate]. apply is_k_eq in ERB.
-    destruct (HE _ _ _ _ Hokr E1) as (c1 & -> & A1 & G1 & K1).
+    destruct (HE nm _ _ _ _ Hokr E1) as (c1 & -> & A1 & G1 & K1).
     assert (Hok' : Forall tokok r').
     { apply tokok_tail in Hokr. inversion Hokr; assumption. }
-    destruct (HPo _ _ _ _ Hok' H) as (c2 & suf & -> & Ep & A2 & G2 & K2).
-    cbn [ptoks] in Ep.
-    exists (t :: c1 ++ c :: c2), (LB :: ptoks e ++ RB :: suf).
+    destruct (HPo nm _ _ _ _ Hok' H) as (c2 & suf & -> & Ep & A2 & G2 & K2).
+    cbn [gtoks] in Ep.
+    exists (t :: c1 ++ c :: c2), (LB :: gtoks nm e ++ RB :: suf).
     split; [cbn [app]; rewrite <- app_assoc; reflexivity|].
     split; [rewrite Ep, <- !app_assoc; reflexivity|].
     split.
@@ -761,16 +818,16 @@ Proof.
 Qed.
 
 (* rule parse: expression EOF *)
-Theorem reparse_tokens ts t : Forall tokok ts -> parse_tokens ts = POk t ->
-  alike ts (ptoks t) /\ parse_tokens (ptoks t) = POk (norm t).
+Theorem greparse_tokens nm ts t : Forall tokok ts -> parse_tokens ts = POk t ->
+  alike ts (gtoks nm t) /\ parse_tokens (gtoks nm t) = POk (gnorm nm t).
 Proof.
   intros Hok H. unfold parse_tokens in H.
   destruct (existsb _ ts); [discriminate|].
   destruct (p_expr (parse_fuel ts) 0 ts) as [[e [|x r]]| |] eqn:E; try discriminate. inversion H; subst e.
   destruct (all_fuel (parse_fuel ts)) as (HE & _).
-  destruct (HE _ _ _ _ Hok E) as (c1 & Ec & A1 & G1 & K1). rewrite app_nil_r in Ec. subst c1.
+  destruct (HE nm _ _ _ _ Hok E) as (c1 & Ec & A1 & G1 & K1). rewrite app_nil_r in Ec. subst c1.
   split; [exact A1|]. unfold parse_tokens.
-  assert (Hex : existsb (fun t0 => is_k TEXT t0 && match text_value (tx t0) with None => true | Some _ => false end) (ptoks t) = false).
+  assert (Hex : existsb (fun t0 => is_k TEXT t0 && match text_value (tx t0) with None => true | Some _ => false end) (gtoks nm t) = false).
   { clear - G1. induction G1 as [|x l Hx Hl IH]; [reflexivity|]. cbn [existsb]. rewrite IH, orb_false_r.
     destruct (is_k TEXT x) eqn:EK; [|reflexivity]. apply is_k_eq in EK. destruct (Hx EK) as [v ->]. reflexivity. }
   rewrite Hex. unfold parse_fuel in *. rewrite <- (alike_length _ _ A1).
@@ -778,3 +835,107 @@ Proof.
 Qed.
 
 End Roundtrip.
+
+(* ---------------------------------------------------------------------------------------------- *)
+(* instance 1: plain printing (the name map is lower-casing everywhere) *)
+
+Section Plain.
+Variable lower : N -> N.
+Variable printable : N -> bool.
+Hypothesis printable_nl : printable 10 = false.
+
+Definition push_plain (a : list text) (nm : text -> text) : text -> text := nm.
+
+Lemma gtoks_plain : forall e, gtoks printable push_plain (map lower) e = ptoks lower printable e.
+Proof.
+  induction e as [n|c l IHc|c l IHc IHl|f ps IHf IHps|a b IHb|o a b IHa IHb|a IHa|a IHa|v|l|b|] using expr_ind';
+    cbn [gtoks ptoks]; unfold push_plain in *; try congruence.
+  rewrite IHf. f_equal. f_equal. f_equal.
+  induction IHps as [|x r Hx Hr IH]; [reflexivity|]. destruct r as [|y r']; [exact Hx|]. rewrite Hx, IH. reflexivity.
+Qed.
+
+Lemma gnorm_plain : forall e, gnorm push_plain (map lower) e = ExPrintProofs.norm lower e.
+Proof.
+  induction e as [n|c l IHc|c l IHc IHl|f ps IHf IHps|a b IHb|o a b IHa IHb|a IHa|a IHa|v|l|b|] using expr_ind';
+    cbn [gnorm ExPrintProofs.norm]; unfold push_plain in *; try congruence.
+  rewrite IHf. f_equal.
+  induction IHps as [|x r Hx Hr IH]; [reflexivity|]. cbn [map]. rewrite Hx, IH. reflexivity.
+Qed.
+
+Theorem reparse_tokens ts t : Forall tokok ts -> parse_tokens ts = POk t ->
+  alike ts (ptoks lower printable t) /\ parse_tokens (ptoks lower printable t) = POk (ExPrintProofs.norm lower t).
+Proof.
+  intros Hok H. rewrite <- gtoks_plain, <- gnorm_plain.
+  exact (greparse_tokens printable printable_nl push_plain (map lower) ts t Hok H).
+Qed.
+
+End Plain.
+
+(* ---------------------------------------------------------------------------------------------- *)
+(* instance 2: the tree after ContextRefRename (model/ExRefactor.v): free matching references get the new name,
+   under a parameter list that binds the old name nothing is renamed *)
+From Verif Require Import model.ExRefactor.
+
+Section Renamed.
+Variable lower : N -> N.
+Variable printable : N -> bool.
+Hypothesis printable_nl : printable 10 = false.
+Variable is_from : text -> bool.
+Variable to : text.
+
+Definition nm_rename (n : text) : text := map lower (if is_from n then to else n).
+Definition push_rename (a : list text) (nm : text -> text) : text -> text :=
+  if existsb is_from a then map lower else nm.
+
+Lemma gtoks_bound : forall e, gtoks printable push_rename (map lower) e = ptoks lower printable e.
+Proof.
+  induction e as [n|c l IHc|c l IHc IHl|f ps IHf IHps|a b IHb|o a b IHa IHb|a IHa|a IHa|v|l|b|] using expr_ind';
+    cbn [gtoks ptoks]; try congruence.
+  - rewrite IHf. f_equal. f_equal. f_equal.
+    induction IHps as [|x r Hx Hr IH]; [reflexivity|]. destruct r as [|y r']; [exact Hx|]. rewrite Hx, IH. reflexivity.
+  - replace (push_rename a (map lower)) with (map lower) by (unfold push_rename; destruct (existsb is_from a); reflexivity).
+    rewrite IHb. reflexivity.
+Qed.
+
+Lemma gnorm_bound : forall e, gnorm push_rename (map lower) e = ExPrintProofs.norm lower e.
+Proof.
+  induction e as [n|c l IHc|c l IHc IHl|f ps IHf IHps|a b IHb|o a b IHa IHb|a IHa|a IHa|v|l|b|] using expr_ind';
+    cbn [gnorm ExPrintProofs.norm]; try congruence.
+  - rewrite IHf. f_equal.
+    induction IHps as [|x r Hx Hr IH]; [reflexivity|]. cbn [map]. rewrite Hx, IH. reflexivity.
+  - replace (push_rename a (map lower)) with (map lower) by (unfold push_rename; destruct (existsb is_from a); reflexivity).
+    rewrite IHb. reflexivity.
+Qed.
+
+Lemma gtoks_rename : forall e,
+  gtoks printable push_rename nm_rename e = ptoks lower printable (rename is_from to e).
+Proof.
+  induction e as [n|c l IHc|c l IHc IHl|f ps IHf IHps|a b IHb|o a b IHa IHb|a IHa|a IHa|v|l|b|] using expr_ind';
+    cbn [gtoks rename ptoks]; try congruence.
+  - unfold nm_rename. destruct (is_from n); reflexivity.
+  - rewrite IHf. f_equal. f_equal. f_equal.
+    induction IHps as [|x r Hx Hr IH]; [reflexivity|]. destruct r as [|y r']; [exact Hx|]. cbn [map]. cbn [map] in IH. rewrite Hx, IH. reflexivity.
+  - unfold push_rename. destruct (existsb is_from a); cbn [ptoks]; [rewrite gtoks_bound|rewrite <- IHb]; reflexivity.
+Qed.
+
+Lemma gnorm_rename : forall e,
+  gnorm push_rename nm_rename e = ExPrintProofs.norm lower (rename is_from to e).
+Proof.
+  induction e as [n|c l IHc|c l IHc IHl|f ps IHf IHps|a b IHb|o a b IHa IHb|a IHa|a IHa|v|l|b|] using expr_ind';
+    cbn [gnorm rename ExPrintProofs.norm]; try congruence.
+  - unfold nm_rename. destruct (is_from n); reflexivity.
+  - rewrite IHf. f_equal. rewrite map_map.
+    induction IHps as [|x r Hx Hr IH]; [reflexivity|]. cbn [map]. rewrite Hx, IH. reflexivity.
+  - unfold push_rename. destruct (existsb is_from a); cbn [ExPrintProofs.norm]; [rewrite gnorm_bound|rewrite <- IHb]; reflexivity.
+Qed.
+
+(* the printed tokens of the renamed tree are parsed back to the (normalised) renamed tree *)
+Theorem reparse_renamed ts t : Forall tokok ts -> parse_tokens ts = POk t ->
+  alike ts (ptoks lower printable (rename is_from to t))
+  /\ parse_tokens (ptoks lower printable (rename is_from to t)) = POk (ExPrintProofs.norm lower (rename is_from to t)).
+Proof.
+  intros Hok H. rewrite <- gtoks_rename, <- gnorm_rename.
+  exact (greparse_tokens printable printable_nl push_rename nm_rename ts t Hok H).
+Qed.
+
+End Renamed.
